@@ -146,9 +146,12 @@ func TestC07ServerSyn(t *testing.T) {
 	if err != nil {
 		t.Fatal(err)
 	}
-	for n := 0; n < 256; n++ {
-		n := n
-		noteCurrent(dir, map[string]any{"scenario": "serverSyn", "n": n})
+	// pass 0: the proposed window arrives in the first SYN; pass 1: a valid
+	// SYN (window 5) first, then the proposed one while the server waits for
+	// the SYNACK (the server answers the later SYN and adopts its window)
+	for idx := 0; idx < 512; idx++ {
+		n, pass := idx%256, idx/256
+		noteCurrent(dir, map[string]any{"scenario": "serverSyn", "n": n, "pass": pass})
 		synctest.Test(t, func(t *testing.T) {
 			rec := trace.New()
 			net := vnet.New(rec, 5*time.Millisecond, nil, gbnrun.Describe)
@@ -174,6 +177,10 @@ func TestC07ServerSyn(t *testing.T) {
 					}
 				}
 			}()
+			if pass == 1 {
+				net.Inject("s", []byte{gbn.SYN, 5})
+				time.Sleep(50 * time.Millisecond)
+			}
 			net.Inject("s", []byte{gbn.SYN, byte(n)})
 			time.Sleep(50 * time.Millisecond)
 			net.Inject("s", []byte{gbn.SYNACK})
@@ -205,7 +212,7 @@ func TestC07ServerSyn(t *testing.T) {
 			}
 			cancel()
 			synctest.Wait()
-			w.Write([]trace.Event{{"ev": "hs", "proposed": n, "returned": hs,
+			w.Write([]trace.Event{{"ev": "hs", "proposed": n, "second": pass, "returned": hs,
 				"adopted": adopted, "err": errS}})
 		})
 	}
